@@ -28,4 +28,9 @@ func init() {
 		Decides:    "every ref-update site in fetch and push is reachable only through a fast-forward, force, new-ref or delete permit (C10-a); existing tags additionally need force (C10-b); ref writes go through the logging API only (C10-c); the reflog's old value is read inside the same SQL transaction (C10-d); merge writes refs only after the merge base was computed (C10-e, weak).",
 		NotDecided: "that IsAncestorOf answers correctly (C11); merge's fast-forward condition (control-dependent on SeekCommonAncestor); pull's new-branch detection; the remote side of push.",
 	}
+	props["C09"] = &propSpec{
+		Rules:      []string{"C09-a", "C09-b", "C09-c", "C10-c"},
+		Decides:    "ordering/completion mechanisms of fetch and push: refs saved only after objects were fetched successfully (C09-a); the upload-pack session ends only when the receiver reports all expected commits (C09-b); a push session is created only after the shallow-commit check (C09-c); ref writes go through pkg/ref's logging API (C10-c).",
+		NotDecided: "completeness of the transferred history, object identity on both sides, idempotence of a repeated fetch/push.",
+	}
 }
